@@ -333,13 +333,24 @@ def _field_bytes(f: Field, nbytes: int, little: bool, signed: bool) -> list[Byte
             out.append(ByteVal(None, 0, False, False, 0))
             continue
         if f.mask is not None and (f.mask >> lo) & 0xFF != 0xFF:
-            raise AnalysisError(f"byte layout: partial mask {hex(f.mask)} on byte {j} not modelled")
+            # some bits of this byte are masked away: it is not the byte of the source any more (never equal to a wanted plain byte)
+            out.append(ByteVal(f"{f.source} with bits masked by {hex((f.mask >> lo) & 0xFF)}", f.shift + lo, False, signed))
+            continue
         out.append(ByteVal(f.source, f.shift + lo, False, signed))
     unmasked_top = f.mask is None or (f.mask >> (8 * nbytes)) != 0
     if unmasked_top and out:
         top = out[-1]
         out[-1] = ByteVal(top.source, top.bit, True, signed, top.const)
     return out if little else list(reversed(out))
+
+
+def _sets_or_moves_bits(e: ast.AST) -> bool:
+    for n in ast.walk(e):
+        if isinstance(n, ast.BinOp) and isinstance(n.op, (ast.BitOr, ast.BitXor, ast.LShift)):
+            c = _int(n.right) if _int(n.right) is not None else _int(n.left)
+            if c is not None and c != 0:
+                return True
+    return False
 
 
 def packed_bytes(expr: ast.AST) -> list[ByteVal]:
@@ -356,6 +367,10 @@ def packed_bytes(expr: ast.AST) -> list[ByteVal]:
         out: list[ByteVal] = []
         for (code, n), a in zip(fmt.fields, args):
             f = field_of(a)
+            if f is None and _sets_or_moves_bits(a):
+                # `x | C`, `x ^ C`, `x << k` (C, k != 0): bits are forced or moved up, which no byte extraction does
+                out += [ByteVal(f"bits forced / moved by `{unparse(a)[:40]}`", 8 * j, False, code.islower()) for j in range(n)]
+                continue
             if f is None:
                 raise AnalysisError(f"byte layout: `{unparse(a)[:50]}` is not in shift/mask normal form")
             out += _field_bytes(f, n, fmt.order == "<" or n == 1, code.islower() and code != "x")
